@@ -212,7 +212,7 @@ def write_replay(check, plan, violation, digest, meta):
     kh = hashlib.sha1(violation['key'].encode()).hexdigest()[:8]
     path = os.path.join(VERIF, 'replays', '%s-%s-%s.json' % (check.id, kh, plan.get('seed', 'x')))
     doc = {'format': 1, 'property': check.id, 'world': check.world, 'seed': plan.get('seed'),
-           'hashseed': os.environ.get('PYTHONHASHSEED', ''), 'plan': plan, 'violation': violation,
+           'hashseed': os.environ.get('PYTHONHASHSEED', '') + (':O' if sys.flags.optimize else ''), 'plan': plan, 'violation': violation,
            'digest': digest, 'clastic_tree_sha': tree_sha()}
     doc.update(meta)
     with open(path, 'w') as f:
@@ -314,7 +314,7 @@ def run_check(pid, tier, base_seed, nproc=None, max_runs=None, write_evidence=Tr
     else:
         step = max(1, len(jobs) // hs_n)
         hs_jobs = jobs[::step][:hs_n]
-    hs_seeds = getattr(check, 'hashseeds', {'quick': [1], 'thorough': [1, 2]})[tier]
+    hs_seeds = getattr(check, 'hashseeds', {'quick': ['1:O'], 'thorough': ['1:O', 2]})[tier]
     hs_procs = []
     for hs in hs_seeds:
         env = _child_env(hs)
